@@ -47,8 +47,9 @@ CHECKS = {
             {"test": "TestC10Enum", "rapid": False, "quick": 0, "thorough": 0, "shards": 16, "quick_shards": 8},
             {"test": "TestC10Sample", "rapid": False, "quick": 0, "thorough": 0, "shards": 16, "quick_shards": 8, "only_tier": "quick"},
             {"test": "TestC10Random", "quick": 20000, "thorough": 50000, "shards": 16, "quick_shards": 1},
+            {"test": "TestC10Process", "quick": 3000, "thorough": 20000, "shards": 16, "quick_shards": 1},
         ],
-        "assumptions": ["VM instruction budget 5e6 per Run (verif hook); in the random part a budget trip is a violation only when the reference matcher shows the search to be short"],
+        "assumptions": ["verif hook: VM instruction budget (1e6 in the enumerations, whose observed maximum is 1 568; 3e5 as a cost cap elsewhere) and progress measures - a loop activation with more iterations, or calls nested deeper, than the text is long plus 8 is a spin; a budget trip with bounded progress measures in the random part is a long search, not a verdict"],
     },
     "C11": {
         "parts": [
